@@ -1,6 +1,7 @@
 package props
 
 import (
+	"os"
 	"go/ast"
 	"go/token"
 	"go/types"
@@ -573,4 +574,898 @@ func evalBool(info *types.Info, e ast.Expr, env map[types.Object]bool) (val, kno
 		}
 	}
 	return false, false
+}
+
+// ---------------------------------------------------------------------------- C08 / C09
+
+func init() {
+	wrap := func(id string, extra func(c *Ctx)) {
+		prev := registry[id].Run
+		registry[id].Run = func(c *Ctx) { prev(c); extra(c) }
+	}
+	wrap("C08", func(c *Ctx) { ruleChunkedKeepsData(c, "C08-R7") })
+	wrap("C09", extra2C09)
+}
+
+// ruleChunkedKeepsData: the chunked store merges into what earlier attempts wrote.
+func ruleChunkedKeepsData(c *Ctx, rule string) {
+	c.Rule(rule, "a chunked store keeps the chunks earlier attempts wrote (Registry.Pull remembers finished chunks and does not fetch them again): the write-open in DiskCache.Chunked carries neither O_TRUNC nor O_APPEND, and nothing in Chunked or Chunker truncates or removes the file")
+	info := c.P.Pkgs[blobPkg].TypesInfo
+	f := c.Fn(rule, blobPkg, "DiskCache.Chunked")
+	if f == nil {
+		return
+	}
+	n := 0
+	for _, call := range core.Calls(f.Body, true) {
+		if core.CalleeName(info, call) != "os.OpenFile" || len(call.Args) != 3 {
+			continue
+		}
+		n++
+		flags, isC := core.ConstInt(info, call.Args[1])
+		ok := isC && flags&(0x200|0x400) == 0 // O_TRUNC | O_APPEND on linux
+		if !isC {
+			// not a constant: fall back to the names mentioned
+			ok = !mentionsSel(call.Args[1], "O_TRUNC") && !mentionsSel(call.Args[1], "O_APPEND")
+		}
+		c.Check(rule, f.Key()+" open keeps existing chunks", c.Pos(call), ok, "opening the blob with O_TRUNC/O_APPEND wipes or misplaces chunks a previous attempt stored and Pull will not fetch again: the file reaches full size with holes")
+	}
+	c.Expect(rule, "OpenFile calls in Chunked", n, 1)
+	for _, fn := range c.P.FuncsOf(blobPkg) {
+		root := fn.Name
+		if fn.Parent != nil {
+			root = fn.Parent.Name
+		}
+		if root != "DiskCache.Chunked" && !strings.HasPrefix(root, "Chunker.") {
+			continue
+		}
+		for _, call := range core.Calls(fn.Body, false) {
+			switch core.CalleeName(info, call) {
+			case "os.File.Truncate", "os.Truncate", "os.Remove", "os.RemoveAll", "os.Rename":
+				c.Violation(rule, fn.Key()+" "+core.CalleeName(info, call), c.Pos(call), "the chunked writer must not truncate, remove or replace the shared blob file")
+			}
+		}
+	}
+}
+
+func extra2C09(c *Ctx) {
+	ruleChunkedKeepsData(c, "C09-R8")
+	c.Rule("C09-R9", "the chunked pull path has no truncate behind its writer, so it relies on checkWriter.Write never letting an unverified final piece reach the file: C08-R1 re-checked here (hash update, overflow test and sticky error dominate the underlying write; the size-reaching write is behind the digest match edge)")
+	ruleCheckWriter(c, "C09-R9")
+
+	c.Rule("C09-R10", "the new client treats only 2xx as success: sendRequest returns a response with a nil error only for status codes inside [200,299] (interval evaluation of every condition on res.StatusCode that controls the success return over the domain [100,599]); a 3xx answer to a non-replayable blob PUT must fail the push, not count as an accepted layer")
+	info := c.P.Pkgs[regPkg].TypesInfo
+	f := c.Fn("C09-R10", regPkg, "sendRequest")
+	if f == nil {
+		return
+	}
+	g := c.G(f)
+	domain := core.NewIvSet(core.Iv{Lo: 100, Hi: 599})
+	env := &core.AbsEnv{Info: info, Consts: map[types.Object]int64{}, IsVar: func(e ast.Expr) string {
+		if se, ok := ast.Unparen(e).(*ast.SelectorExpr); ok && se.Sel.Name == "StatusCode" {
+			return "byte"
+		}
+		return ""
+	}}
+	n := 0
+	for _, ex := range g.Returns() {
+		if len(ex.Return.Results) != 2 || core.ExprString(ex.Return.Results[1]) != "nil" {
+			continue
+		}
+		if core.ExprString(ex.Return.Results[0]) == "nil" {
+			continue
+		}
+		n++
+		set := domain
+		for _, fct := range g.Facts(ex.Loc) {
+			if !mentionsSel(fct.Expr, "StatusCode") {
+				continue
+			}
+			s, ok := env.CondSet(fct.Expr, domain)
+			if !ok {
+				c.Undecided("C09-R10", f.Key()+" success return: status condition", c.Pos(fct.Expr), "condition outside the interval fragment: "+core.ExprString(fct.Expr))
+				continue
+			}
+			if !fct.Val {
+				s = domain.Minus(s)
+			}
+			set = set.Intersect(s)
+		}
+		ok := !set.Empty() && set.Minus(core.NewIvSet(core.Iv{Lo: 200, Hi: 299})).Empty()
+		c.Check("C09-R10", f.Key()+" success return only for 2xx", c.Pos(ex.Return), ok, "the response is returned as a success for status codes "+set.String())
+	}
+	c.Expect("C09-R10", "success returns of sendRequest", n, 1)
+}
+
+// ---------------------------------------------------------------------------- C13 / C08: complete case-insensitive look-up
+
+func init() {
+	wrap := func(id string, extra func(c *Ctx)) {
+		prev := registry[id].Run
+		registry[id].Run = func(c *Ctx) { prev(c); extra(c) }
+	}
+	wrap("C13", func(c *Ctx) { ruleLinkScanComplete(c, "C13-R6") })
+	wrap("C08", func(c *Ctx) { ruleLinkScanComplete(c, "C08-R8") })
+	wrap("C10", extra2C10)
+}
+
+func ruleLinkScanComplete(c *Ctx, rule string) {
+	c.Rule(rule, "the case-insensitive look-up sees every manifest: manifestPath ranges over c.links(), every iteration without an enumeration error reaches the strings.EqualFold test of the wanted path against that link, the loop is left only by the error return and the match return (no break, no ordering shortcut: links sort byte-wise, the match is case-folded), and the not-found path is returned only after the loop; links() yields every result of the four-level glob")
+	info := c.P.Pkgs[blobPkg].TypesInfo
+	if f := c.Fn(rule, blobPkg, "DiskCache.manifestPath"); f != nil {
+		g := c.G(f)
+		n := 0
+		for _, rl := range rangeLoops(f) {
+			call, ok := ast.Unparen(rl.Stmt.X).(*ast.CallExpr)
+			if !ok || core.CalleeName(info, call) != blobPkg+".DiskCache.links" {
+				continue
+			}
+			n++
+			val, _ := rl.Stmt.Key.(*ast.Ident) // for l, err := range: Key is the link
+			var linkObj types.Object
+			if val != nil {
+				linkObj = info.Defs[val]
+			}
+			// exits of the loop body
+			bad := ""
+			sawFold := false
+			ast.Inspect(rl.Stmt.Body, func(x ast.Node) bool {
+				switch s := x.(type) {
+				case *ast.FuncLit:
+					return false
+				case *ast.BranchStmt:
+					if s.Tok != token.CONTINUE || true {
+						bad = s.Tok.String() + " at " + c.Pos(s)
+					}
+				case *ast.ReturnStmt:
+					// allowed: on the err != nil edge, or on the EqualFold(maybe, link) edge
+					okRet := false
+					for _, a := range g.AtomsAt(g.Locate(s)) {
+						if !a.Val {
+							continue
+						}
+						if x, eq, isNil := core.IsNilCheck(info, a.Expr); isNil && !eq {
+							if id, isID := ast.Unparen(x).(*ast.Ident); isID && isErrType(info.TypeOf(id)) {
+								okRet = true
+							}
+						}
+						if fc, isC := ast.Unparen(a.Expr).(*ast.CallExpr); isC && core.CalleeName(info, fc) == "strings.EqualFold" && len(fc.Args) == 2 {
+							if linkObj != nil && (core.UsesObj(info, fc.Args[0], linkObj) || core.UsesObj(info, fc.Args[1], linkObj)) {
+								okRet = true
+								sawFold = true
+							}
+						}
+					}
+					if !okRet {
+						bad = "return at " + c.Pos(s) + " not on the error edge or the EqualFold match edge"
+					}
+				}
+				return true
+			})
+			// every condition inside the body is one of the two tests (no extra filter before the match test)
+			extra := ""
+			ast.Inspect(rl.Stmt.Body, func(x ast.Node) bool {
+				is, ok := x.(*ast.IfStmt)
+				if !ok {
+					return true
+				}
+				s := core.ExprString(is.Cond)
+				if _, _, isNil := core.IsNilCheck(info, is.Cond); isNil {
+					return true
+				}
+				if fc, isC := ast.Unparen(is.Cond).(*ast.CallExpr); isC && core.CalleeName(info, fc) == "strings.EqualFold" {
+					return true
+				}
+				extra = s + " at " + c.Pos(is)
+				return true
+			})
+			after := false
+			for _, ex := range g.Returns() {
+				if ex.Return.Pos() > rl.Stmt.End() && g.ReturnKind(ex) == core.RetSuccess {
+					after = true
+				}
+			}
+			why := bad
+			if why == "" && extra != "" {
+				why = "additional condition inside the scan: " + extra
+			}
+			c.Check(rule, f.Key()+" scans every link with a case-folded comparison", c.Pos(rl.Stmt), bad == "" && extra == "" && sawFold && after, why)
+		}
+		c.Expect(rule, "loops over c.links() in manifestPath", n, 1)
+	}
+	if f := c.Fn(rule, blobPkg, "DiskCache.links"); f != nil {
+		ok := false
+		pat := ""
+		for _, l := range f.Lits() {
+			var globVar types.Object
+			ast.Inspect(l.Body, func(x ast.Node) bool {
+				as, isAs := x.(*ast.AssignStmt)
+				if !isAs || len(as.Rhs) != 1 {
+					return true
+				}
+				if call, isC := ast.Unparen(as.Rhs[0]).(*ast.CallExpr); isC && core.CalleeName(info, call) == "io/fs.Glob" && len(call.Args) == 2 {
+					pat, _ = core.ConstString(info, call.Args[1])
+					if id, isID := as.Lhs[0].(*ast.Ident); isID {
+						globVar = info.ObjectOf(id)
+					}
+				}
+				return true
+			})
+			for _, rl := range rangeLoops(l) {
+				if id, isID := ast.Unparen(rl.Stmt.X).(*ast.Ident); !isID || info.Uses[id] != globVar || globVar == nil {
+					continue
+				}
+				// body: `if !yield(v, nil) { return }` and nothing else that leaves or skips
+				yields, others := 0, 0
+				ast.Inspect(rl.Stmt.Body, func(x ast.Node) bool {
+					switch s := x.(type) {
+					case *ast.CallExpr:
+						if id, isID := ast.Unparen(s.Fun).(*ast.Ident); isID && id.Name == "yield" {
+							yields++
+						}
+					case *ast.BranchStmt:
+						others++
+					case *ast.IfStmt:
+						if len(core.Calls(s.Cond, false)) == 0 {
+							others++ // a filter that does not depend on yield
+						}
+					}
+					return true
+				})
+				if yields == 1 && others == 0 {
+					ok = true
+				}
+			}
+		}
+		c.Check(rule, f.Key()+" yields every manifest of the four-level glob", c.Pos(f.Decl), ok && pat == "manifests/*/*/*/*", "links() must enumerate manifests/*/*/*/* and yield each result (pattern: "+pat+")")
+	}
+}
+
+// ---------------------------------------------------------------------------- C10
+
+func extra2C10(c *Ctx) {
+	c.Rule("C10-R6", "an accessor that reads a well-known key without a default (keyValue indexes defaultValue[0] when the key is missing or has another type) is safe only because the decoder owns that key: for every keyValue call without default arguments the constant key is stored by gguf.Decode unconditionally on every successful path, with a value of exactly the accessor's type, after the last store of a file-supplied key (so nothing read from the file can survive under that key)")
+	info := c.P.Pkgs["fs/ggml"].TypesInfo
+	dec := c.Fn("C10-R6", "fs/ggml", "gguf.Decode")
+	if dec == nil {
+		return
+	}
+	g := c.G(dec)
+	n := 0
+	for _, fn := range c.P.FuncsOf("fs/ggml") {
+		for _, call := range core.Calls(fn.Body, true) {
+			if core.CalleeName(info, call) != "fs/ggml.keyValue" || len(call.Args) != 2 || call.Ellipsis.IsValid() {
+				continue
+			}
+			n++
+			key, isS := core.ConstString(info, call.Args[1])
+			want := info.TypeOf(call)
+			construct := fn.Key() + " keyValue(" + key + ") without default"
+			if !isS {
+				c.Violation("C10-R6", construct, c.Pos(call), "non-constant key read without a default: a missing key panics (index out of range)")
+				continue
+			}
+			var store *core.Hit
+			for _, h := range g.Find(func(nd ast.Node) bool {
+				as, ok := nd.(*ast.AssignStmt)
+				if !ok || len(as.Lhs) != 1 || len(as.Rhs) != 1 {
+					return false
+				}
+				ix, ok := ast.Unparen(as.Lhs[0]).(*ast.IndexExpr)
+				if !ok || selName(ix.X) != "kv" {
+					return false
+				}
+				k, isK := core.ConstString(info, ix.Index)
+				return isK && k == key
+			}) {
+				h := h
+				store = &h
+			}
+			if store == nil {
+				c.Violation("C10-R6", construct, c.Pos(call), "gguf.Decode does not store "+key+": a file without it makes the accessor panic")
+				continue
+			}
+			as := store.Node.(*ast.AssignStmt)
+			sameType := want != nil && types.Identical(info.TypeOf(as.Rhs[0]), want)
+			// unconditional: every successful return passes the store
+			miss := g.MustPass(g.Entry(), func(nd ast.Node, l core.Loc) bool { return l == store.Loc }, func(ex core.Exit) bool {
+				return ex.Return == nil || g.ReturnKind(ex) != core.RetError
+			})
+			uncond := len(miss) == 0
+			// no guard that depends on the map's current content
+			for _, a := range g.AtomsAt(store.Loc) {
+				if mentionsSel(a.Expr, "kv") {
+					uncond = false
+				}
+			}
+			// after the last file-supplied store
+			late := true
+			for _, h := range g.Find(func(nd ast.Node) bool {
+				as2, ok := nd.(*ast.AssignStmt)
+				if !ok || len(as2.Lhs) != 1 {
+					return false
+				}
+				ix, ok := ast.Unparen(as2.Lhs[0]).(*ast.IndexExpr)
+				if !ok || selName(ix.X) != "kv" {
+					return false
+				}
+				_, isK := core.ConstString(info, ix.Index)
+				return !isK
+			}) {
+				if g.Reaches(store.Loc, h.Loc) {
+					late = false
+				}
+			}
+			if os.Getenv("VERIF_DEBUG") != "" {
+				println("DBG C10-R6", sameType, uncond, late, len(miss), exitList(c, miss, "miss"))
+			}
+			c.Check("C10-R6", construct, c.Pos(call), sameType && uncond && late, "Decode must store "+key+" unconditionally, as "+types.TypeString(want, nil)+", after the file's own keys: otherwise a file that supplies the key with another type makes "+fn.Name+" panic (outside gin's recovery in /api/create)")
+		}
+	}
+	c.Expect("C10-R6", "keyValue calls without a default", n, 1)
+}
+
+// ---------------------------------------------------------------------------- C12
+
+func init() {
+	prev := registry["C12"].Run
+	registry["C12"].Run = func(c *Ctx) { prev(c); extra2C12(c) }
+}
+
+func extra2C12(c *Ctx) {
+	c.Rule("C12-R9", "a torn manifest under the target name does not block repeating the operation: where create and pull look up the manifest they are about to replace (ParseNamedManifest(name) in CreateHandler's worker, GetManifest(mp) in PullModel) the result of that look-up is either discarded or every edge of every test of its error can still reach the write of the new manifest (a kill between os.Create and Encode leaves a zero-length manifest; aborting on it makes the name unrepairable through the API)")
+	info := c.P.Pkgs["server"].TypesInfo
+	type site struct {
+		fn     string
+		lookup string
+		writes []string
+	}
+	n := 0
+	for _, s := range []site{
+		{"Server.CreateHandler", "server.ParseNamedManifest", []string{"server.createModel", "server.WriteManifest"}},
+		{"PullModel", "server.GetManifest", []string{"os.WriteFile", "server.WriteManifest"}},
+	} {
+		root := c.Fn("C12-R9", "server", s.fn)
+		if root == nil {
+			continue
+		}
+		for _, fn := range append([]*core.Func{root}, root.Lits()...) {
+			g := c.G(fn)
+			for _, h := range g.FindCalls(s.lookup) {
+				var writes []core.Hit
+				for _, w := range s.writes {
+					writes = append(writes, g.FindCalls(w)...)
+				}
+				if len(writes) == 0 {
+					continue
+				}
+				n++
+				construct := fn.Key() + " look-up of the manifest being replaced cannot abort"
+				v := core.ResultVar(info, h.Top, h.Node.(*ast.CallExpr), -1)
+				if v == nil {
+					c.OK("C12-R9", construct, c.Pos(h.Node), "error discarded")
+					continue
+				}
+				var others []core.Loc
+				for _, as := range g.AssignsTo(v) {
+					if as.Loc != h.Loc {
+						others = append(others, as.Loc)
+					}
+				}
+				bad := ""
+				for _, cb := range g.CondBlocks() {
+					if cb.Cond == nil || !core.UsesObj(info, cb.Cond, v) {
+						continue
+					}
+					cl := g.CondLoc(cb.B)
+					// is this a test of the look-up's error (no reassignment on some path from the call)?
+					about := false
+					g.Walk(h.Loc, func(nd ast.Node, l core.Loc) bool {
+						if l == cl {
+							about = true
+							return true
+						}
+						for _, o := range others {
+							if l == o {
+								return true
+							}
+						}
+						return about
+					})
+					if !about {
+						continue
+					}
+					for k, succ := range cb.B.Succs {
+						reach := false
+						for _, w := range writes {
+							st := core.StartOf(succ)
+							if st.B == w.Loc.B || g.Reaches(st, w.Loc) {
+								reach = true
+							}
+						}
+						if !reach {
+							edge := "true"
+							if k == 1 {
+								edge = "false"
+							}
+							bad = "the " + edge + " edge of `" + core.ExprString(cb.Cond) + "` (" + c.Pos(cb.Cond) + ") cannot reach the manifest write"
+						}
+					}
+				}
+				c.Check("C12-R9", construct, c.Pos(h.Node), bad == "", bad)
+			}
+		}
+	}
+	c.Expect("C12-R9", "look-ups of a manifest about to be replaced", n, 2)
+}
+
+// ---------------------------------------------------------------------------- C16 / C18 / C19 (round 2)
+
+func init() {
+	wrap := func(id string, extra func(c *Ctx)) {
+		prev := registry[id].Run
+		registry[id].Run = func(c *Ctx) { prev(c); extra(c) }
+	}
+	wrap("C16", extra2C16)
+	wrap("C18", extra2C18)
+	wrap("C19", extra2C19)
+}
+
+func extra2C16(c *Ctx) {
+	c.Rule("C16-R7", "the total requirement is never below the GPU-resident part: in EstimateGPULayers the total is assigned once, as a sum that has the partial (VRAM) requirement as a summand, after the last addition to the partial; it is never decreased or reassigned afterwards, and the values reported as TotalSize / VRAMSize are exactly these two variables (llm/server.go subtracts them as uint64)")
+	f := c.Fn("C16-R7", "llm", "EstimateGPULayers")
+	if f == nil {
+		return
+	}
+	info := f.Info()
+	g := c.G(f)
+	// the two variables: the ones stored into the estimate's TotalSize / VRAMSize
+	var total, partial types.Object
+	ast.Inspect(f.Body, func(n ast.Node) bool {
+		switch x := n.(type) {
+		case *ast.KeyValueExpr:
+			if k, ok := x.Key.(*ast.Ident); ok {
+				if id, isID := ast.Unparen(x.Value).(*ast.Ident); isID {
+					switch k.Name {
+					case "TotalSize":
+						total = info.Uses[id]
+					case "VRAMSize":
+						partial = info.Uses[id]
+					}
+				}
+			}
+		case *ast.AssignStmt:
+			if len(x.Lhs) == 1 && len(x.Rhs) == 1 {
+				if id, isID := ast.Unparen(x.Rhs[0]).(*ast.Ident); isID {
+					switch selName(x.Lhs[0]) {
+					case "TotalSize":
+						total = info.Uses[id]
+					case "VRAMSize":
+						partial = info.Uses[id]
+					}
+				}
+			}
+		}
+		return true
+	})
+	if total == nil || partial == nil {
+		c.Undecided("C16-R7", "anchor:variables reported as TotalSize and VRAMSize", "-", "anchor lost")
+		return
+	}
+	var sums []core.Hit
+	bad := ""
+	for _, h := range g.AssignsTo(total) {
+		switch x := h.Node.(type) {
+		case *ast.ValueSpec:
+			continue
+		case *ast.AssignStmt:
+			if x.Tok == token.ASSIGN && len(x.Rhs) == 1 {
+				// total = partial + ...
+				isSum := false
+				var walk func(e ast.Expr) bool
+				walk = func(e ast.Expr) bool {
+					e = ast.Unparen(e)
+					if id, ok := e.(*ast.Ident); ok && info.Uses[id] == partial {
+						return true
+					}
+					if be, ok := e.(*ast.BinaryExpr); ok && be.Op == token.ADD {
+						return walk(be.X) || walk(be.Y)
+					}
+					return false
+				}
+				isSum = walk(x.Rhs[0])
+				if isSum {
+					sums = append(sums, h)
+					continue
+				}
+			}
+			if x.Tok == token.ADD_ASSIGN {
+				continue // only grows (unsigned)
+			}
+			bad = "total is changed by `" + core.ExprString(x.Lhs[0]) + " " + x.Tok.String() + " …` at " + c.Pos(x)
+		default:
+			bad = "total is changed at " + c.Pos(h.Node)
+		}
+	}
+	late := len(sums) == 1
+	if late {
+		for _, h := range g.AssignsTo(partial) {
+			if _, isSpec := h.Node.(*ast.ValueSpec); isSpec {
+				continue
+			}
+			if g.Reaches(sums[0].Loc, h.Loc) {
+				late = false
+				bad = "the partial requirement is changed at " + c.Pos(h.Node) + " after the total was derived from it"
+			}
+			if as, ok := h.Node.(*ast.AssignStmt); ok && as.Tok != token.ADD_ASSIGN && as.Tok != token.DEFINE && as.Tok != token.ASSIGN {
+				bad = "the partial requirement is decreased at " + c.Pos(as)
+			}
+		}
+	}
+	c.Check("C16-R7", f.Key()+" total = partial + … and only grows", c.Pos(f.Decl), late && bad == "", bad)
+}
+
+func extra2C18(c *Ctx) {
+	c.Rule("C18-R6", "the sampled index is inside the slice: the search key is multiplied by the cumulative total (the last running sum) on every path to the binary search, after the cumulative-sum loop, and the comparator reports 'less' only for a strictly smaller running sum and never 'equal' — with a key below the total the search cannot return len(tokens)")
+	f := c.Fn("C18-R6", "sample", "Sampler.sample")
+	if f == nil {
+		return
+	}
+	info := f.Info()
+	g := c.G(f)
+	fVal := c.P.LookupField("sample", "token", "value")
+	searches := g.FindCalls("slices.BinarySearchFunc")
+	c.Expect("C18-R6", "binary searches in sample", len(searches), 1)
+	for _, h := range searches {
+		call := h.Node.(*ast.CallExpr)
+		key, _ := ast.Unparen(call.Args[1]).(*ast.Ident)
+		if key == nil {
+			c.Undecided("C18-R6", f.Key()+" search key", c.Pos(call), "the search key is not a variable")
+			continue
+		}
+		kv := info.Uses[key]
+		scaled := false
+		for _, as := range g.AssignsTo(kv) {
+			a, ok := as.Node.(*ast.AssignStmt)
+			if !ok || len(a.Rhs) != 1 {
+				continue
+			}
+			var factor ast.Expr
+			if a.Tok == token.MUL_ASSIGN {
+				factor = a.Rhs[0]
+			} else if be, isB := ast.Unparen(a.Rhs[0]).(*ast.BinaryExpr); isB && be.Op == token.MUL && a.Tok == token.ASSIGN {
+				if core.UsesObj(info, be.X, kv) {
+					factor = be.Y
+				} else if core.UsesObj(info, be.Y, kv) {
+					factor = be.X
+				}
+			}
+			if factor == nil {
+				continue
+			}
+			// the factor is the last running sum: tokens[len(tokens)-1].value, or the accumulator of the loop
+			isTotal := false
+			if core.LastField(info, factor) == fVal {
+				if se, isSel := ast.Unparen(factor).(*ast.SelectorExpr); isSel {
+					if ix, isIx := ast.Unparen(se.X).(*ast.IndexExpr); isIx {
+						if be, isB := ast.Unparen(ix.Index).(*ast.BinaryExpr); isB && be.Op == token.SUB {
+							if _, isLen := isLenOf(info, be.X); isLen {
+								if v, isC := core.ConstInt(info, be.Y); isC && v == 1 {
+									isTotal = true
+								}
+							}
+						}
+					}
+				}
+			} else if id, isID := ast.Unparen(factor).(*ast.Ident); isID {
+				// accumulator: a variable that the loop stores into token.value
+				for _, st := range g.Find(func(nd ast.Node) bool {
+					s, ok := nd.(*ast.AssignStmt)
+					return ok && len(s.Lhs) == 1 && len(s.Rhs) == 1 && core.LastField(info, s.Lhs[0]) == fVal
+				}) {
+					if rid, isR := ast.Unparen(st.Node.(*ast.AssignStmt).Rhs[0]).(*ast.Ident); isR && info.Uses[rid] == info.Uses[id] {
+						isTotal = true
+					}
+				}
+			}
+			if isTotal && g.Dominates(as.Loc, h.Loc) {
+				// after the cumulative loop: no store to token.value between the scaling and the search
+				scaled = true
+				for _, st := range g.Find(func(nd ast.Node) bool {
+					s, ok := nd.(*ast.AssignStmt)
+					return ok && len(s.Lhs) == 1 && core.LastField(info, s.Lhs[0]) == fVal
+				}) {
+					if g.Reaches(as.Loc, st.Loc) {
+						scaled = false
+					}
+				}
+			}
+		}
+		c.Check("C18-R6", f.Key()+" search key scaled to the cumulative total on every path", c.Pos(call), scaled, "`r *= <last running sum>` must dominate the search: an unscaled draw above a float32 total slightly below 1 makes the search return len(tokens) and tokens[idx] panics")
+		// comparator
+		okCmp := false
+		if lit, isLit := ast.Unparen(call.Args[2]).(*ast.FuncLit); isLit {
+			var lf *core.Func
+			for _, l := range f.Lits() {
+				if l.Lit == lit {
+					lf = l
+				}
+			}
+			if lf != nil {
+				lg := c.G(lf)
+				neg, zero, strict := 0, 0, true
+				for _, ex := range lg.Returns() {
+					v, isC := core.ConstInt(info, ex.Return.Results[0])
+					if !isC {
+						strict = false
+						continue
+					}
+					if v == 0 {
+						zero++
+					}
+					if v < 0 {
+						neg++
+						okEdge := false
+						for _, a := range lg.AtomsAt(ex.Loc) {
+							be, isB := ast.Unparen(a.Expr).(*ast.BinaryExpr)
+							if !isB || !a.Val {
+								continue
+							}
+							// element.value < target   or   target > element.value
+							if be.Op == token.LSS && core.LastField(info, be.X) == fVal && core.UsesObj(info, be.Y, paramAt(lf, 1)) {
+								okEdge = true
+							}
+							if be.Op == token.GTR && core.LastField(info, be.Y) == fVal && core.UsesObj(info, be.X, paramAt(lf, 1)) {
+								okEdge = true
+							}
+						}
+						if !okEdge {
+							strict = false
+						}
+					}
+				}
+				okCmp = neg >= 1 && zero == 0 && strict
+			}
+		}
+		c.Check("C18-R6", f.Key()+" comparator: less only for a strictly smaller running sum, never equal", c.Pos(call), okCmp, "a comparator that says 'less' for value <= target (or 'equal') lets a key equal to the total run past the last element")
+	}
+}
+
+func extra2C19(c *Ctx) {
+	c.Rule("C19-R5", "legacy (non-.Messages) rendering loses no pending turn: in Template.Execute's message loop a slot variable (system / prompt / response, identified by the role case that stores m.Content into it) is overwritten only on paths that either flushed (called the rendering closure) or took the empty edge of a test of every later slot: system needs prompt and response empty, prompt needs response empty (path enumeration from the top of the loop body to each store)")
+	f := c.Fn("C19-R5", "template", "Template.Execute")
+	if f == nil {
+		return
+	}
+	info := f.Info()
+	g := c.G(f)
+	// slot variables by role
+	slots := map[string]types.Object{}
+	var stores = map[string]*ast.AssignStmt{}
+	var loop *ast.RangeStmt
+	ast.Inspect(f.Body, func(n ast.Node) bool {
+		sw, ok := n.(*ast.SwitchStmt)
+		if !ok || sw.Tag == nil || selName(sw.Tag) != "Role" {
+			return true
+		}
+		for _, st := range sw.Body.List {
+			cc := st.(*ast.CaseClause)
+			if len(cc.List) != 1 {
+				continue
+			}
+			role, isS := core.ConstString(info, cc.List[0])
+			if !isS {
+				continue
+			}
+			for _, bs := range cc.Body {
+				ast.Inspect(bs, func(m ast.Node) bool {
+					as, ok := m.(*ast.AssignStmt)
+					if ok && len(as.Lhs) == 1 && len(as.Rhs) == 1 && as.Tok == token.ASSIGN && selName(as.Rhs[0]) == "Content" {
+						if id, isID := as.Lhs[0].(*ast.Ident); isID {
+							slots[role] = info.Uses[id]
+							stores[role] = as
+						}
+					}
+					return true
+				})
+			}
+		}
+		for _, rl := range rangeLoops(f) {
+			if within(rl.Stmt, sw) {
+				loop = rl.Stmt
+			}
+		}
+		return true
+	})
+	if len(slots) != 3 || loop == nil || slots["system"] == nil || slots["user"] == nil || slots["assistant"] == nil {
+		c.Undecided("C19-R5", "anchor:role switch with three slot stores in Template.Execute", "-", "anchor lost")
+		return
+	}
+	need := map[string][]types.Object{
+		"system": {slots["user"], slots["assistant"]},
+		"user":   {slots["assistant"]},
+	}
+	isFlush := func(nd ast.Node) bool {
+		for _, call := range core.Calls(nd, false) {
+			if id, ok := ast.Unparen(call.Fun).(*ast.Ident); ok {
+				if v, isV := info.Uses[id].(*types.Var); isV {
+					if _, isSig := v.Type().Underlying().(*types.Signature); isSig {
+						return true
+					}
+				}
+			}
+		}
+		return false
+	}
+	start := g.Locate(loop.Body.List[0])
+	for _, role := range []string{"system", "user"} {
+		st := stores[role]
+		paths, complete := g.PathsTo(core.Loc{B: start.B, I: start.I - 1}, g.Locate(st), 4000)
+		if !complete || len(paths) == 0 {
+			c.Undecided("C19-R5", f.Key()+" store:"+role+" slot", c.Pos(st), "path enumeration incomplete")
+			continue
+		}
+		bad := ""
+		for _, p := range paths {
+			flushed := false
+			empty := map[types.Object]bool{}
+			for _, s := range p {
+				if isFlush(s.Node) {
+					flushed = true
+				}
+				if s.Edge < 0 {
+					continue
+				}
+				e, isE := s.Node.(ast.Expr)
+				if !isE {
+					continue
+				}
+				for _, a := range core.Atoms([]core.Fact{{Expr: e, Val: s.Edge == 0}}) {
+					if be, isB := ast.Unparen(a.Expr).(*ast.BinaryExpr); isB {
+						if v, isS := core.ConstString(info, be.Y); isS && v == "" {
+							if id, isID := ast.Unparen(be.X).(*ast.Ident); isID {
+								if (be.Op == token.NEQ && !a.Val) || (be.Op == token.EQL && a.Val) {
+									empty[info.Uses[id]] = true
+								}
+							}
+						}
+					}
+				}
+			}
+			if flushed {
+				continue
+			}
+			for _, o := range need[role] {
+				if !empty[o] {
+					bad = "a path reaches the store without a flush and without knowing that `" + o.Name() + "` is empty"
+				}
+			}
+		}
+		c.Check("C19-R5", f.Key()+" store:"+role+" slot only after pending later slots were flushed", c.Pos(st), bad == "", bad)
+	}
+}
+
+// ---------------------------------------------------------------------------- C17 / C20 (round 2)
+
+func init() {
+	wrap := func(id string, extra func(c *Ctx)) {
+		prev := registry[id].Run
+		registry[id].Run = func(c *Ctx) { prev(c); extra(c) }
+	}
+	wrap("C17", extra2C17)
+	wrap("C20", extra2C20)
+}
+
+func extra2C17(c *Ctx) {
+	c.Rule("C17-R6", "streamed and non-streamed OpenAI answers agree on the finish reason: in toChatCompletion the override to \"tool_calls\" depends only on tool calls being present, and in toChunk only on a tool call having been sent and the done reason being non-empty — neither looks at which reason it replaces (a `reason != \"length\"` on one side makes the two paths report different finish reasons for the same output)")
+	info := c.P.Pkgs["openai"].TypesInfo
+	n := 0
+	for _, name := range []string{"toChatCompletion", "toChunk"} {
+		f := c.Fn("C17-R6", "openai", name)
+		if f == nil {
+			continue
+		}
+		for _, l := range f.Lits() {
+			if len(l.Type.Params.List) != 1 || l.Type.Results == nil {
+				continue
+			}
+			reason := paramAt(l, 0)
+			g := c.G(l)
+			// override sites: `reason = "tool_calls"` or `return &finishReasonToolCalls`
+			var sites []core.Loc
+			var nodes []ast.Node
+			g.AllLocs(func(nd ast.Node, loc core.Loc) {
+				switch x := nd.(type) {
+				case *ast.AssignStmt:
+					if len(x.Rhs) == 1 {
+						if s, ok := core.ConstString(info, x.Rhs[0]); ok && s == "tool_calls" {
+							sites = append(sites, loc)
+							nodes = append(nodes, x)
+						}
+					}
+				case *ast.ReturnStmt:
+					if len(x.Results) == 1 {
+						if u, ok := ast.Unparen(x.Results[0]).(*ast.UnaryExpr); ok && u.Op == token.AND {
+							if id, isID := ast.Unparen(u.X).(*ast.Ident); isID {
+								if v, isV := info.Uses[id].(*types.Var); isV && v.Parent() == v.Pkg().Scope() {
+									if init := core.PackageVarInit(c.P.Pkgs["openai"], v); init != nil {
+										if s, ok := core.ConstString(info, init); ok && s == "tool_calls" {
+											sites = append(sites, loc)
+											nodes = append(nodes, x)
+										}
+									}
+								}
+							}
+						}
+					}
+				}
+			})
+			for i, loc := range sites {
+				n++
+				bad := ""
+				for _, a := range g.AtomsAt(loc) {
+					// allowed: len(<tool calls>) > 0, a bool about tool calls, len(reason) > 0 / reason != ""
+					if core.UsesObj(info, a.Expr, reason) {
+						if be, ok := ast.Unparen(a.Expr).(*ast.BinaryExpr); ok {
+							if _, isLen := isLenOf(info, be.X); isLen {
+								continue
+							}
+							if s, isS := core.ConstString(info, be.Y); isS && s == "" {
+								continue
+							}
+						}
+						bad = "the override depends on the reason being replaced: " + core.ExprString(a.Expr)
+					}
+				}
+				c.Check("C17-R6", l.Key()+" override to tool_calls independent of the replaced reason", c.Pos(nodes[i]), bad == "", bad)
+			}
+		}
+	}
+	c.Expect("C17-R6", "tool_calls override sites", n, 2)
+}
+
+func extra2C20(c *Ctx) {
+	c.Rule("C20-R5", "vocabulary look-ups in the byte-pair encoder are made in the byte-level alphabet: inside the loop over pre-tokens of BytePairEncoding.Encode no argument of Vocabulary.Encode derives from the raw pre-token or the raw fragment (vocabulary entries are written in the remapped alphabet; a raw 'À' would match the entry that stands for byte 0xC0)")
+	info := c.P.Pkgs["model"].TypesInfo
+	f := c.Fn("C20-R5", "model", "BytePairEncoding.Encode")
+	if f == nil {
+		return
+	}
+	g := c.G(f)
+	n := 0
+	for _, rl := range rangeLoops(f) {
+		call, ok := ast.Unparen(rl.Stmt.X).(*ast.CallExpr)
+		if !ok || core.CalleeName(info, call) != "model.BytePairEncoding.split" {
+			continue
+		}
+		var raw []types.Object
+		if id, isID := rl.Stmt.Key.(*ast.Ident); isID {
+			raw = append(raw, info.Defs[id])
+		}
+		// the fragment variable the pre-tokens come from
+		for _, id := range identsOf(call) {
+			if v, isV := info.Uses[id].(*types.Var); isV && !v.IsField() && v.Parent() != nil && v.Pkg() != nil && v.Parent() != v.Pkg().Scope() && v != paramAt(f, 0) {
+				if _, isRecv := v.Type().Underlying().(*types.Struct); isRecv {
+					if core.ObjNameOfType(v.Type()) == "model.BytePairEncoding" {
+						continue
+					}
+				}
+				raw = append(raw, v)
+			}
+		}
+		for _, vc := range core.CallsTo(info, rl.Stmt.Body, true, "model.Vocabulary.Encode") {
+			n++
+			bad := ""
+			for _, x := range expand(g, vc.Args[0], 3) {
+				for _, o := range raw {
+					if core.UsesObj(info, x, o) {
+						// the byte loop `for _, b := range []byte(split)` is the one legitimate reader; an
+						// argument is derived from it only through the builder, which expand does not follow
+						bad = "look-up of " + core.ExprString(vc.Args[0]) + " derives from the raw `" + o.Name() + "`"
+					}
+				}
+			}
+			c.Check("C20-R5", f.Key()+" vocab look-up#"+itoa(n)+" in the remapped alphabet", c.Pos(vc), bad == "", bad)
+		}
+	}
+	c.Expect("C20-R5", "vocabulary look-ups in the pre-token loop", n, 2)
 }
